@@ -26,7 +26,7 @@ func (icep IbcCallEvmPacket) ValidateBasic() error {
 	if err := contract.ValidateEthereumAddress(icep.To); err != nil {
 		return sdkerrors.ErrInvalidRequest.Wrapf("to address: %s", err.Error())
 	}
-	if icep.Value.IsNegative() {
+	if icep.Value.IsNil() || icep.Value.IsNegative() {
 		return sdkerrors.ErrInvalidRequest.Wrapf("value: %s", icep.Value.String())
 	}
 	if _, err := hex.DecodeString(icep.Data); err != nil {
